@@ -1139,7 +1139,8 @@ h2_recv_data (connection * const con, const uint8_t * const s, const uint32_t le
 
     if (r->x.h2.state == H2_STATE_CLOSED
         || r->x.h2.state == H2_STATE_HALF_CLOSED_REMOTE) {
-        h2_send_rst_stream_id(id, con, H2_E_STREAM_CLOSED);
+        /*(stream error: close stream; send no further frames on it)*/
+        h2_send_rst_stream(r, con, H2_E_STREAM_CLOSED);
         chunkqueue_mark_written(cq, 9+len);
         h2_send_window_update_unit(con, h2r, len); /*(h2r->x.h2.rwin)*/
         return 1;
